@@ -1226,5 +1226,464 @@ Proof.
   intros k. rewrite I2. apply aput_all_ext. exact R2.
 Qed.
 
+(* ------------------------------------------------------------------------------------------ *)
+(** * B: every operation refines its specification *)
+
+Definition spec_n (s : st) : Z := Z.of_nat (length (nodes s)).
+Definition spec_l (s : st) : list (N * N * Z) := map entry (nodes s).
+
+Lemma good_ext s r m m' out out' :
+  good s r m out -> (forall k, m k = m' k) -> out = out' -> good s r m' out'.
+Proof.
+  intros (G1 & G2 & G3 & G4) E <-. split; [exact G1|]. split; [|split; [exact G3|exact G4]].
+  intros k. rewrite G2. apply E.
+Qed.
+
+Lemma good_readonly s out : WF s -> good s (s, out) (abs khash s) out.
+Proof.
+  intros H. split; [exact H|]. split; [reflexivity|]. split; [reflexivity|]. cbn [fst]. split; [lia|tauto].
+Qed.
+
+Lemma get_node_key s k n : WF s -> get_node khash s k = Some n -> nk n = k.
+Proof.
+  intros H E. rewrite get_node_lookup in E by (apply WF_WFS; exact H). apply lookup_some in E. apply E.
+Qed.
+
+Lemma slen_wf s : WF s -> slen s = spec_n s.
+Proof. intros H. unfold slen, spec_n. rewrite (wf_len s H). lia. Qed.
+
+Theorem put_refines s k i v :
+  WF s -> good s (step khash remap keep s (Insert k i v))
+               (spec_state remap keep (abs khash s) (Insert k i v))
+               (spec_out remap (abs khash s) (Insert k i v) (spec_n s) (spec_l s)).
+Proof. intros H. exact (put_ok s k i v false H). Qed.
+
+Theorem try_insert_refines s k i v :
+  WF s -> good s (step khash remap keep s (TryInsert k i v))
+               (spec_state remap keep (abs khash s) (TryInsert k i v))
+               (spec_out remap (abs khash s) (TryInsert k i v) (spec_n s) (spec_l s)).
+Proof.
+  intros H. apply (good_ext _ _ _ _ _ _ (put_ok s k i v true H)).
+  - intros x. unfold put_abs. cbn [spec_state]. destruct (abs khash s k) as [[i0 v0]|]; reflexivity.
+  - reflexivity.
+Qed.
+
+Theorem remove_refines s k :
+  WF s ->
+  good s (step khash remap keep s (Remove k))
+         (spec_state remap keep (abs khash s) (Remove k))
+         (spec_out remap (abs khash s) (Remove k) (spec_n s) (spec_l s)) /\
+  good s (step khash remap keep s (RemoveEntry k))
+         (spec_state remap keep (abs khash s) (RemoveEntry k))
+         (spec_out remap (abs khash s) (RemoveEntry k) (spec_n s) (spec_l s)) /\
+  tlen_s (fst (step khash remap keep s (Remove k))) = tlen_s s /\
+  tlen_s (fst (step khash remap keep s (RemoveEntry k))) = tlen_s s.
+Proof.
+  intros H. destruct (remove_ok s k H) as (R1 & R2 & R3 & R4 & R5). cbn [step spec_state spec_out].
+  destruct (Seq.remove khash s k) as [s' r]. cbn [fst snd] in *.
+  assert (Habs : forall x, abs khash s' x = adel (abs khash s) k x).
+  { intros x. unfold adel. rewrite !abs_wf by assumption. rewrite R2. destruct (x =? k)%N; reflexivity. }
+  rewrite (abs_wf s k H), <- R3.
+  split; [|split; [|split; exact R4]].
+  - split; [exact R1|]. split; [exact Habs|]. cbn [fst snd]. split; [|split; [lia|exact R5]].
+    destruct r; reflexivity.
+  - split; [exact R1|]. split; [exact Habs|]. cbn [fst snd]. split; [|split; [lia|exact R5]].
+    destruct r as [n|]; [|reflexivity]. cbn [option_map ent].
+    symmetry in R3. apply lookup_some in R3 as [_ ->]. reflexivity.
+Qed.
+
+Theorem compute_refines s k f :
+  WF s -> good s (step khash remap keep s (Compute k f))
+               (spec_state remap keep (abs khash s) (Compute k f))
+               (spec_out remap (abs khash s) (Compute k f) (spec_n s) (spec_l s)).
+Proof. intros H. exact (compute_ok s k f H). Qed.
+
+Theorem clear_refines s :
+  WF s -> good s (step khash remap keep s Clear)
+               (spec_state remap keep (abs khash s) Clear)
+               (spec_out remap (abs khash s) Clear (spec_n s) (spec_l s)).
+Proof.
+  intros H. destruct (clear_ok s H) as (C1 & C2 & C3 & C4). cbn [step spec_state spec_out].
+  split; [exact C1|]. cbn [fst snd]. split; [|split; [reflexivity|split; [lia|tauto]]].
+  intros k. rewrite abs_wf by exact C1. rewrite C2. reflexivity.
+Qed.
+
+Theorem retain_refines s p :
+  WF s ->
+  good s (step khash remap keep s (Retain p))
+         (spec_state remap keep (abs khash s) (Retain p))
+         (spec_out remap (abs khash s) (Retain p) (spec_n s) (spec_l s)) /\
+  good s (step khash remap keep s (RetainForce p))
+         (spec_state remap keep (abs khash s) (RetainForce p))
+         (spec_out remap (abs khash s) (RetainForce p) (spec_n s) (spec_l s)).
+Proof.
+  intros H. destruct (retain_ok s p H) as (R1 & R2 & R3 & R4). cbn [step spec_state spec_out].
+  split; (split; [exact R1|]; cbn [fst snd]; split; [exact R2|split; [reflexivity|split; [lia|exact R4]]]).
+Qed.
+
+Theorem reserve_refines s n :
+  WF s -> good s (step khash remap keep s (Reserve n))
+               (spec_state remap keep (abs khash s) (Reserve n))
+               (spec_out remap (abs khash s) (Reserve n) (spec_n s) (spec_l s)).
+Proof.
+  intros H. destruct (reserve_ok s n H) as (R1 & R2 & R3 & R4). cbn [step spec_state spec_out].
+  split; [exact R1|]. cbn [fst snd]. split; [exact R2|]. split; [reflexivity|]. split; assumption.
+Qed.
+
+Theorem extend_refines s hint items :
+  WF s -> good s (step khash remap keep s (Extend hint items))
+               (spec_state remap keep (abs khash s) (Extend hint items))
+               (spec_out remap (abs khash s) (Extend hint items) (spec_n s) (spec_l s)).
+Proof.
+  intros H. destruct (extend_ok s hint items H) as (R1 & R2 & R3 & R4). cbn [step spec_state spec_out].
+  split; [exact R1|]. cbn [fst snd]. split; [exact R2|]. split; [reflexivity|]. split; assumption.
+Qed.
+
+Theorem readonly_refines s o :
+  WF s ->
+  match o with Get _ | GetKeyValue _ | ContainsKey _ | Len | IsEmpty | Iter => True | _ => False end ->
+  good s (step khash remap keep s o) (spec_state remap keep (abs khash s) o)
+         (spec_out remap (abs khash s) o (spec_n s) (spec_l s)) /\
+  fst (step khash remap keep s o) = s.
+Proof.
+  intros H Ho. destruct o; try contradiction; cbn [step spec_state spec_out fst];
+    (split; [|reflexivity]); eapply good_ext; try apply (good_readonly s _ H); try reflexivity.
+  - unfold abs. destruct (get_node khash s k); reflexivity.
+  - unfold abs. destruct (get_node khash s k) as [n|] eqn:E; [|reflexivity]. cbn [option_map].
+    rewrite (get_node_key s k n H E). reflexivity.
+  - unfold abs. destruct (get_node khash s k); reflexivity.
+  - rewrite slen_wf by exact H. reflexivity.
+  - rewrite slen_wf by exact H. reflexivity.
+Qed.
+
+Theorem step_good s o :
+  WF s -> good s (step khash remap keep s o) (spec_state remap keep (abs khash s) o)
+               (spec_out remap (abs khash s) o (spec_n s) (spec_l s)).
+Proof.
+  intros H. destruct o.
+  - apply put_refines; exact H.
+  - apply try_insert_refines; exact H.
+  - apply readonly_refines; [exact H|exact I].
+  - apply readonly_refines; [exact H|exact I].
+  - apply readonly_refines; [exact H|exact I].
+  - apply remove_refines; exact H.
+  - apply remove_refines; exact H.
+  - apply compute_refines; exact H.
+  - apply retain_refines; exact H.
+  - apply retain_refines; exact H.
+  - apply clear_refines; exact H.
+  - apply reserve_refines; exact H.
+  - apply extend_refines; exact H.
+  - apply readonly_refines; [exact H|exact I].
+  - apply readonly_refines; [exact H|exact I].
+  - apply readonly_refines; [exact H|exact I].
+Qed.
+
+Theorem step_refines s o :
+  WF s ->
+  let '(s', out) := step khash remap keep s o in
+  WF s' /\
+  (forall k, abs khash s' k = spec_state remap keep (abs khash s) o k) /\
+  out = spec_out remap (abs khash s) o (Z.of_nat (length (nodes s))) (map entry (nodes s)).
+Proof.
+  intros H. destruct (step_good s o H) as (G1 & G2 & G3 & _).
+  destruct (step khash remap keep s o) as [s' out]. cbn [fst snd] in *. tauto.
+Qed.
+
+(* the reachable-state invariant "below the threshold unless full" is preserved as well *)
+Theorem step_sized s o : WF s -> sized s -> sized (fst (step khash remap keep s o)).
+Proof. intros H. apply (step_good s o H). Qed.
+
+(* ------------------------------------------------------------------------------------------ *)
+(** * C: runs, and the initial states *)
+
+(* an abstract run: each outcome is the specified one for some listing of the current abstract map *)
+Inductive spec_run : amap -> list op -> amap -> list outcome -> Prop :=
+| SR_nil m m' : (forall k, m' k = m k) -> spec_run m [] m' []
+| SR_cons m o ops l m1 m' outs :
+    lists l m -> (forall k, m1 k = spec_state remap keep m o k) ->
+    spec_run m1 ops m' outs ->
+    spec_run m (o :: ops) m' (spec_out remap m o (Z.of_nat (length l)) l :: outs).
+
+Definition run_step : st * list outcome -> op -> st * list outcome :=
+  fun '(s, outs) o => let '(s', r) := step khash remap keep s o in (s', outs ++ [r]).
+
+Lemma run_from ops : forall s acc,
+  WF s ->
+  exists s' outs,
+    fold_left run_step ops (s, acc) = (s', acc ++ outs) /\
+    WF s' /\ spec_run (abs khash s) ops (abs khash s') outs /\
+    tlen_s s <= tlen_s s' /\ (sized s -> sized s').
+Proof.
+  induction ops as [|o ops IH]; intros s acc H; cbn [fold_left].
+  - exists s, []. rewrite app_nil_r. split; [reflexivity|]. split; [exact H|].
+    split; [constructor; reflexivity|]. split; [lia|tauto].
+  - destruct (step_good s o H) as (G1 & G2 & G3 & G4 & G5).
+    change (run_step (s, acc) o) with (let '(s', r) := step khash remap keep s o in (s', acc ++ [r])).
+    destruct (step khash remap keep s o) as [s1 r]. cbn [fst snd] in *.
+    destruct (IH s1 (acc ++ [r]) G1) as (s' & outs & E & W & R & L & Zs).
+    exists s', (r :: outs). rewrite E, <- app_assoc. split; [reflexivity|]. split; [exact W|].
+    split; [|split; [lia|tauto]].
+    rewrite G3. unfold spec_n, spec_l. rewrite <- (map_length entry (nodes s)).
+    apply (SR_cons _ _ _ _ (abs khash s1)); [apply nodes_lists_abs; exact H|exact G2|exact R].
+Qed.
+
+Theorem run_refines s ops :
+  WF s ->
+  let '(s', outs) := run khash remap keep s ops in
+  WF s' /\ spec_run (abs khash s) ops (abs khash s') outs /\
+  tlen_s s <= tlen_s s' /\ (sized s -> sized s').
+Proof.
+  intros H. destruct (run_from ops s [] H) as (s' & outs & E & W & R & L & Zs).
+  assert (Er : run khash remap keep s ops = fold_left run_step ops (s, [])) by reflexivity.
+  rewrite Er, E. cbn [app]. tauto.
+Qed.
+
+Theorem with_capacity_wf c :
+  WF (with_capacity c) /\ (forall k, abs khash (with_capacity c) k = aempty k) /\
+  nodes (with_capacity c) = [] /\ sized (with_capacity c).
+Proof.
+  unfold with_capacity. destruct (c =? 0).
+  - split; [|split; [reflexivity|split; reflexivity]]. split; [reflexivity|]. intros _. left; reflexivity.
+  - rewrite both_roundings_agree. destruct (capacity_round_pow2 c) as (j & Hj & ->). unfold presize_threshold.
+    pose proof (WFS_empty j 0 Hj) as Hs.
+    assert (Hn : nodes (mkSt (Some (empty_table (2 ^ Z.of_nat j))) (load_factor (2 ^ Z.of_nat j)) 0) = [])
+      by apply nodes_empty_table.
+    assert (Hw : WF (mkSt (Some (empty_table (2 ^ Z.of_nat j))) (load_factor (2 ^ Z.of_nat j)) 0)).
+    { apply WF_iff. split; [exact Hs|]. rewrite Hn. reflexivity. }
+    split; [exact Hw|]. split; [|split; [exact Hn|]].
+    + intros k. rewrite abs_wf by exact Hw. rewrite Hn. reflexivity.
+    + unfold sized. cbn [tbl sc cnt]. left. pose proof (lf_pos _ (pow2_pos j)). lia.
+Qed.
+
+(* ------------------------------------------------------------------------------------------ *)
+(** * D: the capacity contract (C14) *)
+
+Lemma WF_tlen_pow2 s t :
+  WF s -> tbl s = Some t -> exists j : nat, (j <= 30)%nat /\ tlen t = 2 ^ Z.of_nat j.
+Proof. intros H E. apply WFT_tlen_pow2. apply (WF_some s t H E). Qed.
+
+(* the table never gets shorter (and by WF its length stays a power of two <= 2^30) *)
+Theorem table_never_shrinks s o : WF s -> tlen_s s <= tlen_s (fst (step khash remap keep s o)).
+Proof. intros H. apply (step_good s o H). Qed.
+
+Theorem removal_never_grows s o :
+  WF s ->
+  match o with Remove _ | RemoveEntry _ | Retain _ | RetainForce _ | Clear => True | _ => False end ->
+  tlen_s (fst (step khash remap keep s o)) = tlen_s s.
+Proof.
+  intros H Ho. destruct o; try contradiction.
+  - apply (remove_refines s k H).
+  - apply (remove_refines s k H).
+  - apply (retain_ok s p H).
+  - apply (retain_ok s p H).
+  - apply (clear_ok s H).
+Qed.
+
+(* compute_if_present never inserts; it asks add_count for a resize check, which finds the real
+   count (add_count_local_is_stored) below the threshold in every reachable state *)
+Theorem compute_never_grows s k f :
+  WF s -> sized s -> tbl s <> None ->
+  tlen_s (fst (step khash remap keep s (Compute k f))) = tlen_s s.
+Proof.
+  intros H Hz Hn. cbn [step]. destruct (init_table_ok s H) as (_ & _ & (t & Et) & Einit & _).
+  specialize (Einit Hn). rewrite Einit in Et.
+  pose proof (WF_some _ t H Et) as Ht. set (i := bini t (khash k)).
+  assert (Hi : (i < length t)%nat) by apply (WFT_bini_lt khash t _ Ht).
+  pose proof (WFT_bin_ok khash t i Ht Hi) as Hok.
+  assert (Et' : tbl (init_table s) = Some t) by (rewrite Einit; exact Et).
+  rewrite (compute_some s t k f Et' (bin_ok_not_moved khash _ _ _ Hok)). cbv zeta. fold i. rewrite Einit.
+  destruct (bin_find (get_bin t i) (khash k) k) as [n|]; [|reflexivity].
+  destruct (remap f k (nv n)) as [v'|]; cbn [fst].
+  - unfold tlen_s. cbn [tbl]. rewrite Et. apply tlen_set_bin. exact Hi.
+  - unfold add_count. rewrite add_count_local_is_stored. cbn [tbl sc cnt].
+    set (t' := set_bin t i (bin_remove (get_bin t i) (khash k) k)).
+    assert (El : tlen t' = tlen t) by (apply tlen_set_bin; exact Hi).
+    unfold sized in Hz. rewrite Et in Hz. destruct Hz as [Hz|Hz].
+    + rewrite grow_loop_below.
+      * unfold tlen_s. cbn [tbl]. rewrite Et. exact El.
+      * cbn [sc]. unfold add_count_below. rewrite add_count_stored_eq. apply Z.ltb_lt. lia.
+    + rewrite (grow_loop_full _ _ _ t').
+      * unfold tlen_s. cbn [tbl]. rewrite Et. exact El.
+      * reflexivity.
+      * rewrite El. exact Hz.
+Qed.
+
+(* ---------- when does an insertion grow the table? ---------- *)
+
+Lemma tlen_transfer_all t : tlen (transfer_all t) = 2 * tlen t.
+Proof. unfold transfer_all, tlen. rewrite app_length, !map_length. lia. Qed.
+
+Lemma presize_loop_mono fuel : forall c s, tlen_s s <= tlen_s (presize_loop fuel c s).
+Proof.
+  induction fuel as [|fuel IH]; intros c s; cbn [presize_loop]; [lia|].
+  destruct (try_presize_busy (sc s)); [lia|].
+  destruct (tbl s) as [[|b t]|] eqn:Et.
+  - eapply Z.le_trans; [|apply IH]. unfold tlen_s. rewrite Et. cbn [tbl]. unfold tlen. cbn [length]. lia.
+  - destruct (try_presize_stop _ _ _); [lia|]. eapply Z.le_trans; [|apply IH].
+    unfold resize_once, tlen_s. rewrite Et. cbn [tbl]. rewrite tlen_transfer_all. unfold tlen. lia.
+  - eapply Z.le_trans; [|apply IH]. unfold tlen_s. rewrite Et. cbn [tbl]. unfold tlen. lia.
+Qed.
+
+Lemma presize_loop_same fuel c s b t :
+  tbl s = Some (b :: t) -> tlen_s (presize_loop fuel c s) = tlen_s s -> presize_loop fuel c s = s.
+Proof.
+  intros Et. destruct fuel as [|fuel]; cbn [presize_loop]; [reflexivity|].
+  destruct (try_presize_busy (sc s)); [reflexivity|]. rewrite Et.
+  destruct (try_presize_stop _ _ _); [reflexivity|]. intros E. exfalso.
+  pose proof (presize_loop_mono fuel c (resize_once s)) as M. rewrite E in M.
+  unfold resize_once, tlen_s in M. rewrite Et in M. cbn [tbl] in M. rewrite tlen_transfer_all in M.
+  unfold tlen in M. cbn [length] in M. lia.
+Qed.
+
+Lemma treeify_change s t i :
+  tbl s = Some t -> tlen_s (treeify_bin s i) <> tlen_s s -> treeify_resizes (tlen t) = true.
+Proof.
+  intros Et. unfold treeify_bin. rewrite Et. destruct (treeify_resizes (tlen t)); [reflexivity|].
+  intros Hne. exfalso. apply Hne.
+  destruct (get_bin t i) as [|l| |] eqn:Eb; try reflexivity.
+  unfold tlen_s. cbn [tbl]. rewrite Et. apply tlen_set_bin. apply get_bin_lt. congruence.
+Qed.
+
+Lemma treeify_same s b t i :
+  tbl s = Some (b :: t) -> tlen_s (treeify_bin s i) = tlen_s s ->
+  sc (treeify_bin s i) = sc s /\ cnt (treeify_bin s i) = cnt s.
+Proof.
+  intros Et. unfold treeify_bin. rewrite Et. destruct (treeify_resizes _).
+  - intros E. unfold try_presize in *. rewrite (presize_loop_same _ _ _ _ _ Et E). split; reflexivity.
+  - intros _. destruct (get_bin (b :: t) i); split; reflexivity.
+Qed.
+
+Lemma add_count_inc_change s :
+  tlen_s (add_count s 1 true) <> tlen_s s -> sc s <= cnt s + 1.
+Proof.
+  intros Hne. destruct (Z.lt_ge_cases (cnt s + 1) (sc s)) as [Hlt|]; [|lia]. exfalso. apply Hne.
+  unfold add_count. rewrite grow_loop_below; [reflexivity|].
+  cbn [sc]. unfold add_count_below. apply Z.ltb_lt. exact Hlt.
+Qed.
+
+Lemma put_treeify_true bc : put_treeify bc = true -> TREEIFY_THRESHOLD <= bc.
+Proof. unfold put_treeify. intros H. apply Z.geb_le in H. exact H. Qed.
+
+Lemma treeify_resizes_true n : treeify_resizes n = true -> n < MIN_TREEIFY_CAPACITY.
+Proof. unfold treeify_resizes. apply Z.ltb_lt. Qed.
+
+Definition growth_due (s : st) (t : list bin) (k : N) : Prop :=
+  sc s <= cnt s + 1 \/
+  (TREEIFY_THRESHOLD <= Z.of_nat (length (bin_nodes (get_bin t (bini t (khash k))))) /\
+   tlen t < MIN_TREEIFY_CAPACITY).
+
+Lemma put_growth s t k i v nr :
+  WF s -> tbl s = Some t ->
+  tlen_s (fst (put khash s k i v nr)) <> tlen t -> growth_due s t k.
+Proof.
+  intros H Et. destruct (init_table_ok s H) as (_ & _ & _ & Einit & _).
+  assert (Hn : tbl s <> None) by congruence. specialize (Einit Hn).
+  pose proof (WF_some _ t H Et) as Ht.
+  assert (Hi : (bini t (khash k) < length t)%nat) by apply (WFT_bini_lt khash t _ Ht).
+  assert (Hcons : exists b0 t0, t = b0 :: t0).
+  { pose proof (WFT_len_pos khash t Ht). destruct t as [|b0 t0]; [cbn [length] in *; lia|eauto]. }
+  unfold put, growth_due. rewrite Einit, Et. set (i0 := bini t (khash k)) in *.
+  (* the state with bin i0 replaced *)
+  assert (Hs' : forall b', tlen_s (mkSt (Some (set_bin t i0 b')) (sc s) (cnt s)) = tlen t).
+  { intros b'. unfold tlen_s. cbn [tbl]. apply tlen_set_bin. exact Hi. }
+  assert (Hadd : forall b', tlen_s (add_count (mkSt (Some (set_bin t i0 b')) (sc s) (cnt s)) 1 true) <> tlen t ->
+                            sc s <= cnt s + 1).
+  { intros b' Hne. rewrite <- (Hs' b') in Hne. apply add_count_inc_change in Hne. exact Hne. }
+  assert (Htree : forall b' bc,
+            tlen_s (if put_treeify bc then treeify_bin (mkSt (Some (set_bin t i0 b')) (sc s) (cnt s)) i0
+                    else mkSt (Some (set_bin t i0 b')) (sc s) (cnt s)) <> tlen t ->
+            TREEIFY_THRESHOLD <= bc /\ tlen t < MIN_TREEIFY_CAPACITY).
+  { intros b' bc Hne. destruct (put_treeify bc) eqn:Ep; [|rewrite Hs' in Hne; congruence].
+    split; [apply put_treeify_true; exact Ep|]. rewrite <- (Hs' b') in Hne.
+    apply (treeify_change _ (set_bin t i0 b')) in Hne; [|reflexivity].
+    apply treeify_resizes_true in Hne. rewrite tlen_set_bin in Hne by exact Hi. exact Hne. }
+  destruct (get_bin t i0) as [|l|b|] eqn:Eb; cbn [bin_nodes].
+  - cbn [fst]. intros Hne. left. apply (Hadd _ Hne).
+  - destruct (lb_find l (khash k) k) as [n|] eqn:El.
+    + destruct nr; cbn [fst].
+      * unfold tlen_s. rewrite Et. congruence.
+      * intros Hne. apply Htree in Hne as [Hb Hc]. right. split; [|exact Hc].
+        destruct (lb_pos l (khash k) k 1) as [c|] eqn:Ep.
+        -- apply lb_pos_bound in Ep. lia.
+        -- apply lb_pos_find in Ep. congruence.
+    + cbn [fst]. set (s1 := mkSt (Some (set_bin t i0 (BList (l ++ [N_ (khash k) k i v])))) (sc s) (cnt s)).
+      set (s2 := if put_treeify (Z.of_nat (length l)) then treeify_bin s1 i0 else s1).
+      intros Hne. destruct (Z.eq_dec (tlen_s s2) (tlen t)) as [E|E].
+      * left. assert (Hsc : sc s2 = sc s /\ cnt s2 = cnt s).
+        { unfold s2 in *. destruct (put_treeify _); [|split; reflexivity].
+          destruct Hcons as (b0 & t0 & ->).
+          assert (Ec : exists b1 t1, set_bin (b0 :: t0) i0 (BList (l ++ [N_ (khash k) k i v])) = b1 :: t1).
+          { destruct i0; [rewrite set_bin_cons0|rewrite set_bin_consS]; eauto. }
+          destruct Ec as (b1 & t1 & Ec).
+          apply (treeify_same s1 b1 t1 i0); [unfold s1; cbn [tbl]; rewrite Ec; reflexivity|].
+          rewrite E. symmetry. apply Hs'. }
+        rewrite <- E in Hne. apply add_count_inc_change in Hne. destruct Hsc as [-> ->] . exact Hne.
+      * right. apply (Htree _ _ E).
+  - destruct (t_find (troot b) (khash k) k) as [n|].
+    + destruct nr; cbn [fst].
+      * unfold tlen_s. rewrite Et. congruence.
+      * rewrite Hs'. congruence.
+    + cbn [fst]. intros Hne. left. apply (Hadd _ Hne).
+  - cbn [fst]. unfold tlen_s. rewrite Et. congruence.
+Qed.
+
+Theorem growth_only_when_due s t o :
+  WF s -> sized s -> tbl s = Some t ->
+  tlen_s (fst (step khash remap keep s o)) <> tlen_s s ->
+  match o with
+  | Reserve _ | Extend _ _ => True
+  | Insert k _ _ | TryInsert k _ _ => growth_due s t k
+  | _ => False
+  end.
+Proof.
+  intros H Hz Et Hne. assert (Hn : tbl s <> None) by congruence.
+  assert (Etl : tlen_s s = tlen t) by (unfold tlen_s; rewrite Et; reflexivity).
+  destruct o; try exact I;
+    try (apply Hne; apply removal_never_grows; [exact H|exact I]);
+    try (apply Hne; reflexivity).
+  - rewrite Etl in Hne. apply (put_growth s t k i v false H Et Hne).
+  - rewrite Etl in Hne. apply (put_growth s t k i v true H Et Hne).
+  - apply Hne. apply compute_never_grows; assumption.
+Qed.
+
+(* ------------------------------------------------------------------------------------------ *)
+(** * E: compute_if_present calls the function before any write (C18) *)
+
+(* everything compute does after the callback has returned r *)
+Definition compute_finish (s : st) (t : list bin) (k : N) (r : option Z) : st * outcome :=
+  let i := bini t (khash k) in
+  let b := get_bin t i in
+  match r with
+  | Some v' => (mkSt (Some (set_bin t i (bin_set b (khash k) k v'))) (sc s) (cnt s), OVal v')
+  | None => (add_count (mkSt (Some (set_bin t i (bin_remove b (khash k) k))) (sc s) (cnt s)) (-1) true,
+             ONone)
+  end.
+
+Theorem compute_callback_before_write s0 k f :
+  WF s0 ->
+  let s := init_table s0 in
+  (forall k', abs khash s k' = abs khash s0 k') /\
+  match abs khash s0 k with
+  | None => compute khash remap s0 k f = (s, ONone)
+  | Some (i, v) =>
+      exists t, tbl s = Some t /\
+                compute khash remap s0 k f = compute_finish s t k (remap f k v)
+  end.
+Proof.
+  intros H0. cbv zeta. destruct (init_table_ok s0 H0) as (H & Hnodes & (t & Et) & _).
+  assert (Habs0 : forall k', abs khash (init_table s0) k' = abs khash s0 k').
+  { intros k'. rewrite !abs_wf by assumption. rewrite Hnodes. reflexivity. }
+  split; [exact Habs0|].
+  pose proof (WF_some _ t H Et) as Ht. set (i := bini t (khash k)).
+  assert (Hi : (i < length t)%nat) by apply (WFT_bini_lt khash t _ Ht).
+  pose proof (WFT_bin_ok khash t i Ht Hi) as Hok.
+  rewrite (compute_some s0 t k f Et (bin_ok_not_moved khash _ _ _ Hok)). cbv zeta. fold i.
+  rewrite <- Habs0. unfold abs at 1. rewrite get_node_lookup by (apply WF_WFS; exact H).
+  rewrite (lookup_bin _ t k H Et). fold i. rewrite (bin_find_lookup _ _ _ k Hok).
+  destruct (lookup (bin_nodes (get_bin t i)) k) as [n|]; cbn [option_map]; [|reflexivity].
+  exists t. split; [exact Et|]. unfold compute_finish. fold i. destruct (remap f k (nv n)); reflexivity.
+Qed.
+
 End TreeFacts.
 End WithHash.
